@@ -8,20 +8,27 @@ REGISTRATION = {
     "category": "proof",
     "text": "Kernel-checked for every variant of the code and every interleaving: no request is answered twice, a reply is a runner "
             "xor an error, no accepted request is ever lost (answered once / skipped as already cancelled / tracked in exactly "
-            "one place), a submit on a full queue is answered busy in the same step without touching anything else. The liveness "
-            "half (tracked requests are eventually answered; drain) is covered for the good variant by the drain theorem where "
-            "listed, and by end-of-trace monitors on the real scheduler (unanswered / not drained / deadlock).",
+            "one place), a submit on a full queue is answered busy in the same step without touching anything else. Drain "
+            "(good variant): in every reachable state in which no internal or timer action is enabled, all requests are done and "
+            "no load is in flight, every started runner is shut down and nothing is loaded (every open runner has a wake-up "
+            "pending, every holder a finish event in flight). Fairness (that such states are reached) and the answered-eventually "
+            "half for requests parked in the pending loop are covered by end-of-trace monitors on the real scheduler "
+            "(unanswered / not drained / deadlock), not by a theorem.",
     "design_ref": "DESIGN.md §5 C01/C02/C11",
     "note": COMMON_NOTE + "Outside the model: preemption inside a locked region, lock-order inversion, channel capacities of "
             "finishedReqCh/expiredCh/unloadedCh, real timers, unloadAllRunners at shutdown, the cuda VRAM-recovery poller.",
 }
-MODULES = ["OllamaVerif.Properties.C02", "OllamaVerif.Tie.C01"]
+MODULES = ["OllamaVerif.Properties.C02", "OllamaVerif.Properties.C02Drain", "OllamaVerif.Tie.C01"]
 THEOREMS = [
     "OllamaVerif.C02.at_most_one_reply",
     "OllamaVerif.C02.reply_is_runner_xor_error",
     "OllamaVerif.C02.never_lost",
     "OllamaVerif.C02.full_queue_is_busy_error",
     "OllamaVerif.C02.queue_with_room_accepts",
+    "OllamaVerif.C02.drain",
+    "OllamaVerif.C02.cpc_idle_of_stuck",
+    "OllamaVerif.C02.drained_trace_runs",
+    "OllamaVerif.Sched.reach_invAll",
     "OllamaVerif.Sched.reach_inv",
     "OllamaVerif.Tie.C01.tree_variant_good",
 ]
